@@ -66,14 +66,19 @@ def judge_cut(data, k, cfg, full, clean_ends=None, kind="bytesio"):
     return out, r
 
 
-def judge_stream(data, cfg, clean_ends, acc, case_base, kind="bytesio"):
+def judge_stream(data, cfg, clean_ends, acc, case_base, kind="bytesio", cuts=None):
     r0 = run_reader(data, cfg, stream=make_stream(kind, data))
     acc.evaluations += 1
     if r0.raised is not None or r0.horizon:
-        acc.extra["uncut_run_failed(judged by C08)"] += 1
+        # k = len(S) is a cut position too: with errors ignored or logged the read must end without raising
+        acc.extra["uncut_run_failed"] += 1
+        case = dict(case_base)
+        case.update(cut=len(data), cfg=cfg, kind=kind, uncut=True)
+        key = f"raised|{type(r0.raised).__name__}|uncut_stream" if r0.raised is not None else "no_termination|uncut_stream"
+        acc.violation(key + ("" if kind == "bytesio" else f"|stream={kind}"), case, f"{r0.raised!r:.200}")
         return
     full = item_sigs(r0)
-    for k in range(len(data) + 1):
+    for k in (range(len(data) + 1) if cuts is None else cuts):
         out, r = judge_cut(data, k, cfg, full, clean_ends, kind)
         acc.evaluations += 1
         acc.transitions += len(r.items) + 1
@@ -85,9 +90,21 @@ def judge_stream(data, cfg, clean_ends, acc, case_base, kind="bytesio"):
             acc.violation(key + ("" if kind == "bytesio" else f"|stream={kind}"), case, detail)
 
 
+def run_stream(tok, n):
+    unit = bytes.fromhex(tok[2:]) if tok.startswith("0x") else TOKENS[tok][2]
+    return streams.seq_bytes(("Uack",)) + unit * n + streams.seq_bytes(("Uack", "N1"))
+
+
 def replay_case(case):
-    data = bytes.fromhex(case["stream"])
+    data = run_stream(*case["run"]) if case.get("run") else bytes.fromhex(case["stream"])
     cfg = case["cfg"]
+    if case.get("uncut"):
+        kind = case.get("kind", "bytesio")
+        r0 = run_reader(data, cfg, stream=make_stream(kind, data))
+        if r0.raised is None and not r0.horizon:
+            return []
+        key = f"raised|{type(r0.raised).__name__}|uncut_stream" if r0.raised is not None else "no_termination|uncut_stream"
+        return [(key + ("" if kind == "bytesio" else f"|stream={kind}"), f"{r0.raised!r:.200}")]
     r0 = run_reader(data, cfg)
     full = item_sigs(r0)
     clean_ends = case.get("clean_ends")
@@ -145,6 +162,16 @@ def eval_block(block, acc):
                 ce = clean_ends_of(seq, cfg)
                 judge_stream(data, cfg, ce, acc, {"stream": data.hex(), "tokens": list(seq), "clean_ends": ce}, f"sock:{chunk}")
         return
+    elif block[0] == "runs":
+        # one frame, then more than 1,000 consecutive rejected items of one kind (bad-checksum frames of each
+        # protocol, content-refused frames, single false-sync bytes), then two frames: cuts at every byte of the first
+        # and last 48 bytes and at every 211th byte in between
+        tok, n = block[1], block[2]
+        data = run_stream(tok, n)
+        cuts = sorted(set(range(0, 49)) | set(range(len(data) - 48, len(data) + 1)) | set(range(0, len(data), 211)))
+        for cfg in CFGS[:2]:
+            judge_stream(data, cfg, None, acc, {"run": [tok, n], "clean_ends": None}, cuts=cuts)
+        return
     elif block[0] == "long":
         L = block[1]
         seqs = [(L,)] + [(a, L) for a in streams.LONG_NEIGHBOURS] + [(L, b) for b in streams.LONG_NEIGHBOURS]
@@ -181,6 +208,7 @@ def run_tier(tier, t0):
             blocks += [("tokens", f, 4, "a4")]
     blocks += [("long", L) for L in streams.LONG_NAMES]
     blocks += [("kinds", f) for f in streams.FRAME_TOKENS + streams.FRAG_TOKENS]
+    blocks += [("runs", t, 1100) for t in ("Ubad", "Nbad", "Rbad", "Ntype", "Umsg")] + [("runs", t, 2500) for t in ("0xb5", "0x24", "0xd3", "0xb562")]
     blocks += [("swallow", a) for a in (None, "Uack", "N1", "R1")]
     blocks += [("sock", f) for f in streams.FRAME_TOKENS if vt(CFGS[0])[f][0] == "ok"]
     if not q:
@@ -194,7 +222,7 @@ def run_tier(tier, t0):
             f"over {len(ALPHABET)} tokens (frames, noise, fragments)" + ("" if q else f" and of every sequence of 4 tokens over a reduced alphabet of {len(ALPHA4)}") + f" x {len(CFGS)} configurations (ignore / log+handler x validate 0/1). "
             "distinct_nontrivial = distinct (items of uncut run, items of cut run) pairs"
         ),
-        assumptions=["io.BytesIO(S[:k]) models a stream that ends after k bytes; token sequences of <= 2 are also read through a pipe-like stream (tell/seek raise) a minimal read/readline-only object and a BufferedReader", "swallow ring: headers announcing far more data than follows (UBX length fff0/8000/ffff/7fff, RTCM3 1023) before two frames, every cut, 7 configurations incl. parsing=False", "socket ring: clean sequences of <= 3 accepted frames through a socket whose peer closes after k bytes, for every k, x (recv chunk, bufsize) in (1,4),(5,8),(16,16),(7,64),(64,32),(4096,4096)", "parsed items compared by type, str() and serialize()"],
+        assumptions=["io.BytesIO(S[:k]) models a stream that ends after k bytes; token sequences of <= 2 are also read through a pipe-like stream (tell/seek raise) a minimal read/readline-only object and a BufferedReader", "runs: one frame, 1,100 consecutive rejected frames of one kind (bad checksum per protocol, content refused) or 2,500 false-sync bytes (b5, 24, d3, b5 62), two frames; cut at every byte of the first and last 48 and every 211th between; the uncut stream itself (k = len S) must end without raising", "swallow ring: headers announcing far more data than follows (UBX length fff0/8000/ffff/7fff, RTCM3 1023) before two frames, every cut, 7 configurations incl. parsing=False", "socket ring: clean sequences of <= 3 accepted frames through a socket whose peer closes after k bytes, for every k, x (recv chunk, bufsize) in (1,4),(5,8),(16,16),(7,64),(64,32),(4096,4096)", "parsed items compared by type, str() and serialize()"],
         vacuity=[
             ("some cut run delivered fewer items than the uncut run", any(a > b for (a, b) in acc.outcomes)),
             ("clean sequences were explored", acc.extra["clean_sequences"] > 0),
